@@ -1,9 +1,9 @@
 (* C10 — shared codecs and schema caches are safe for concurrent use.
    Only statements, closed by [exact lemma], with Print Assumptions beneath. *)
 From Coq Require Import String List NArith Bool.
-From J5V.model Require Import Conc ConcSites ConcCorr ConcRace ConcStatement ConcState.
+From J5V.model Require Import Conc ConcKey ConcSites ConcCorr ConcRace ConcStatement ConcState.
 From J5V.gen Require ConcGen ConcStateGen.
-From J5V.proofs Require Import ConcProofs ConcLeafProofs ConcInvProofs ConcTermProofs ConcMainProofs ConcRetProofs ConcRaceProofs ConcFullProofs.
+From J5V.proofs Require Import ConcProofs ConcLeafProofs ConcInvProofs ConcTermProofs ConcMainProofs ConcRetProofs ConcRaceProofs ConcFullProofs ConcKeyProofs.
 Import ListNotations.
 Local Open Scope N_scope.
 
@@ -427,3 +427,58 @@ Theorem C10_unguarded_refuted_nested :
   result_solo 3 w2_graph 3 = ROk (UNode 3 [UNode 1 [UNode 2 []]]).
 Proof. exact unguarded_refuted_nested. Qed.
 Print Assumptions C10_unguarded_refuted_nested.
+
+(* ---- two descriptors, one cache key: the property FAILS of the guarded code (live defect) ---- *)
+(* SchemaCache is keyed by (package, descriptor path joined with "_"); the nested message M0.N1 and the
+   top-level message M0_N1 share a key (ConcKey.v: descriptors and keys kept apart).  Same call, same
+   universe, two schedules of the GUARDED machine, all calls complete, different results — whatever a
+   lookup does with an entry registered for the other descriptor (serve it: /repo up to d286176;
+   fail: the result is then an error for whichever comes second).  The witness is replayed on the real
+   cache and codec on every run (run_conc collisionCases, both lock orders) and recorded as
+   known: property=C10. *)
+Theorem C10_result_depends_on_schedule_refuted : forall pol,
+  exists key k g calls s1 s2 t,
+    calls_ok calls /\
+    all_done (krun pol key Guarded k g calls s1) = true /\
+    all_done (krun pol key Guarded k g calls s2) = true /\
+    nth t (results (krun pol key Guarded k g calls s1)) [] <> nth t (results (krun pol key Guarded k g calls s2)) [].
+Proof. exact result_depends_on_schedule. Qed.
+Print Assumptions C10_result_depends_on_schedule_refuted.
+
+(* "each call returns what it returns alone" over type sets with shared keys: refuted *)
+Theorem C10_keyed_statement_refuted : forall pol, ~ C10_keyed_statement pol Guarded.
+Proof. exact keyed_statement_refuted. Qed.
+Print Assumptions C10_keyed_statement_refuted.
+
+(* the witness in full: M0.N1 { E3 r0 } = descriptor 2, M0_N1 {} = descriptor 3 with the key of 2 *)
+Example C10_collision_witness :
+  let run s := krun HitServe (key_of col_keys) Guarded 3 col_graph col_calls s in
+  all_done (run sched_01) = true /\ all_done (run sched_10) = true /\
+  results (run sched_01) = [[ROk (UNode 2 [UNode 4 []])]; [ROk (UNode 2 [UNode 4 []])]] /\
+  results (run sched_10) = [[ROk (UNode 2 [])]; [ROk (UNode 2 [])]] /\
+  kresult_solo HitServe (key_of col_keys) 3 col_graph 2 = ROk (UNode 2 [UNode 4 []]) /\
+  kresult_solo HitServe (key_of col_keys) 3 col_graph 3 = ROk (UNode 2 []).
+Proof. exact collision_witness_serve. Qed.
+
+(* ---- ... and holds wherever no two descriptors share a key -------------------------------- *)
+(* At an injective key the keyed machine IS the machine of Conc.v: same heap, lock, queue, program
+   counters; map, registered list and the names in the results renamed by the key — for both
+   treatments of a foreign hit (none occurs), both disciplines, all schedules.  So every theorem of
+   this file about [run] is a theorem about the keyed machine on collision-free type sets: the
+   exclusion of collisions is this explicit hypothesis, not a property of the model's type. *)
+Theorem C10_keyed_machine_injective : forall key, key_injective key ->
+  forall pol g d k calls sched,
+    krun pol key d k g calls sched = kmapSt key (run d k g calls sched).
+Proof. exact krun_injective. Qed.
+Print Assumptions C10_keyed_machine_injective.
+
+Theorem C10_keyed_results_collision_free_partial : forall key, key_injective key ->
+  forall pol g k calls, calls_ok calls -> C10_keyed_results pol Guarded key k g calls.
+Proof. exact keyed_results_injective. Qed.
+Print Assumptions C10_keyed_results_collision_free_partial.
+
+Example C10_keyed_injective_example :
+  key_injective (fun n => n + 7) /\
+  results (krun HitCheck (fun n => n + 7) Guarded 3 col_graph col_calls (sched_01 ++ [1; 1]%nat))
+    = [[ROk (UNode 9 [UNode 11 []])]; [ROk (UNode 10 [])]].
+Proof. split; [intros a b H; apply (N.add_cancel_r a b 7); exact H|vm_compute; reflexivity]. Qed.
